@@ -18,10 +18,13 @@
 (*                      no effect, except that a failing call made         *)
 (*                      THROUGH context.lattice has computed the lattice   *)
 (*   SDerive(h, g, how) a new handle g from h: copy(), pickle round trip,  *)
-(*                      Context built from definition(), todict/fromdict with the   *)
-(*                      default flags ("dict": the lattice travels iff it  *)
-(*                      is cached) or with ignore_lattice=False ("force":  *)
-(*                      computing the export caches it in h as well)       *)
+(*                      Context built from definition(), todict/fromdict    *)
+(*                      with ignore_lattice=None ("dict": the lattice      *)
+(*                      travels iff it is cached) or with the default      *)
+(*                      ignore_lattice=False ("force": computing the       *)
+(*                      export caches it in h as well).  C04 counts as a   *)
+(*                      lattice family: its calls compare the generators   *)
+(*                      with context.lattice                               *)
 (*   SDrop(h)           the last reference goes away                       *)
 (*                                                                         *)
 (* The responses of the queries are not modelled here: when a behaviour is *)
@@ -41,8 +44,8 @@ CONSTANTS H,           \* number of handle slots
 VARIABLES hs, slast, shist
 svars == <<hs, slast, shist>>
 
-PureFams == {"C01", "C02", "C04", "C16"}
-LazyFams == {"C02L", "C03", "C05", "C06", "C07", "C08", "C09", "C10", "C18", "C20"}
+PureFams == {"C01", "C02", "C16"}
+LazyFams == {"C02L", "C03", "C04", "C05", "C06", "C07", "C08", "C09", "C10", "C18", "C20"}
 Fams == PureFams \cup LazyFams
 Hows == {"copy", "pickle", "definition", "dict", "force"}
 
